@@ -34,7 +34,22 @@ theorem R_low_x_term (xin yin xout yout : List ℝ) (hl : xout.length = yout.len
       = List.zipWith (· + ·) yout
           (xout.map (codeTerm kw.lorch (Vec.min xin)
             ((if Vec.min xin ≠ 0 then Vec.head yin / Vec.min xin else 0) + 1) (Vec.max xin))) := by
-  simp only [Transformer._low_x_correction, Vec.add]
+  simp only [Transformer._low_x_correction, Vec.add, Cmp.eq_real, decide_eq_true_eq, Nat.cast_zero]
+  by_cases h0 : Vec.min xin = 0
+  · -- the data start at Q = 0: the code returns early, and the term it would have added is 0 at every output point
+    rw [if_pos h0]
+    have hz : ∀ (a : List ℝ) (b : List ℝ), b.length = a.length → List.zipWith (· + ·) a (b.map (fun _ => (0 : ℝ))) = a := by
+      intro a
+      induction a with
+      | nil => intro b _; simp
+      | cons x a ih => intro b hb; cases b with
+        | nil => simp at hb
+        | cons y b => simp only [List.map_cons, List.zipWith_cons_cons, add_zero, ih b (by simpa using hb)]
+    have hc : ∀ r : ℝ, codeTerm kw.lorch (Vec.min xin) ((if Vec.min xin ≠ 0 then Vec.head yin / Vec.min xin else 0) + 1) (Vec.max xin) r = 0 := by
+      intro r; rw [h0]; cases kw.lorch <;> simp [codeTerm]
+    rw [funext hc]
+    exact (hz yout xout hl).symm
+  rw [if_neg h0]
   congr 1
   apply List.map_congr_left
   intro r _
